@@ -41,7 +41,7 @@ class Check(PropCheck):
             n = rng.randint(3, 9) if rng.random() < 0.8 else rng.randint(9, 30)
             mode = 'exact' if rng.random() < 0.8 else 'mod'
             names = ['t%d' % i for i in range(n)]
-            pm = 0.3 if kind in ('stats', 'resolve', 'collapse') else 0.0
+            pm = 0.3 if kind in ('stats', 'resolve', 'collapse', 'compare') else 0.0
             t = gen.rand_tree(rng, n, mode, p_multi=rng.choice([0, pm]) if kind != 'resolve' else 0.6,
                               p_unary=0.0, internal_names=rng.choice([0, 0.5]), names=names,
                               root_len=(kind == 'collapse' and rng.random() < 0.5))
@@ -59,7 +59,21 @@ class Check(PropCheck):
         t = job['tree']
         text = gen.to_newick(t)
         tf = os.path.join(d, 'tree.nwk')
-        open(tf, 'w').write(text + '\n')
+        # legal file layouts: single line, wrapped inside the tree, leading blank lines, CRLF, no final newline
+        lay = rng.choice(['plain', 'plain', 'wrapped', 'leading', 'crlf', 'nofinal'])
+        ftext = text + '\n'
+        if lay == 'wrapped':
+            cut = [i for i, ch in enumerate(text) if ch == ',']
+            if cut:
+                c1 = rng.choice(cut) + 1
+                ftext = text[:c1] + '\n' + text[c1:] + '\n'
+        elif lay == 'leading':
+            ftext = '\n\n' + text + '\n'
+        elif lay == 'crlf':
+            ftext = text + '\r\n'
+        elif lay == 'nofinal':
+            ftext = text
+        open(tf, 'w').write(ftext)
         kind = job['kind']
         args = []; mops = [gen.parse_op(text)]
         outf = os.path.join(d, 'out.txt')
@@ -86,7 +100,15 @@ class Check(PropCheck):
             from props.c06 import nni_neighbour
             others = []
             for q in range(rng.randint(1, 3)):
-                t2 = nni_neighbour(t, rng); gen.assign_lengths(t2, rng, job['mode'])
+                t2 = nni_neighbour(t, rng)
+                if rng.random() < 0.4:
+                    # contract an internal branch of the compared tree: different numbers of bipartitions
+                    inner = [x for x in t2.nodes() if any(c.children for c in x.children)]
+                    if inner:
+                        x = rng.choice(inner)
+                        ci = rng.choice([i for i, c in enumerate(x.children) if c.children])
+                        x.children = x.children[:ci] + x.children[ci].children + x.children[ci + 1:]
+                gen.assign_lengths(t2, rng, job['mode'])
                 f2 = os.path.join(d, 'cmp%d.nwk' % q); open(f2, 'w').write(gen.to_newick(t2) + '\n')
                 others.append((f2, t2))
             args = ['compare', tf] + [f for f, _ in others]
